@@ -482,8 +482,9 @@ package xpath
 //@   ensures[nonnil@C15] result != nil
 //@   requires[nonnil-args@C15] arg1 != nil
 //@ func stringLengthFunc$1
-//@   props C15 C04 C05 C13
-//@   theory stream for C04 C05 C14 C13
+//@   props C15 C04 C05 C13 C09
+//@   theory stream for C04 C05 C14 C13 C09
+//@   ensures[string-length@C09!!] result == box(float(ite(is(retval(Evaluate, 0), string), len(as(retval(Evaluate, 0), string)), ite(is(retval(Evaluate, 0), query) && retval(Select, 0) != nil, len(retval(Value, 0)), 0))))     // the length of the string, or of the string-value of the first node (0 for an empty node-set); bytes = characters for ASCII
 //@   ensures[pure-arg1@C04,C05] stateless(arg1) || k(arg1) == old(k(arg1)) && epoch(arg1) == old(epoch(arg1))
 //@   conforms functionQuery.Func
 //@   captures arg1 != nil
